@@ -65,8 +65,13 @@ func loadFor(repo string, s *spec.Spec, tags []string, env []string, overlay map
 		if l.Dir != "" {
 			dir = repo + "/" + l.Dir
 		}
-		res, err := load.Load(load.Config{Dir: dir, Patterns: l.Patterns, Tags: tags, Env: env, Overlay: overlay})
-		if err != nil {
+		// Overlay loads (witness mutants) type-check every dependency from
+		// source: the export-data path would compile the mutated package and
+		// all its dependants into the build cache for each mutant (tens of GB
+		// over a full mutant run).
+		fromSource := len(overlay) > 0 && os.Getenv("LNDLINT_MUTANTS_EXPORT") == ""
+		res, err := load.Load(load.Config{Dir: dir, Patterns: l.Patterns, Tags: tags, Env: env, Overlay: overlay, AllDeps: fromSource})
+		if err != nil && !fromSource {
 			// The fast path needs compiled export data of the dependencies
 			// (go list -export). If that fails for an environmental reason
 			// (cold or unwritable build cache) fall back to type-checking
